@@ -637,8 +637,10 @@ func runC03(ctx *Ctx) error {
 					wantID, wantBind0 := c03Expect(dt.ops, rq.method, rq.segs)
 					// the argument "named after the variable" carries the variable's Go identifier
 					wantBind := map[string]string{}
+					// argument names are compared without regard to the case of letters: a strict request object names the
+					// variable by its Go field (XY1, É2), the plain interface by its Go argument (xY1, é2)
 					for k, v := range wantBind0 {
-						wantBind[goVarName(k)] = v
+						wantBind[strings.ToLower(goVarName(k))] = v
 					}
 					gotID, gotBind := "", map[string]string{}
 					if resp["regpanic"] != nil {
@@ -659,11 +661,11 @@ func runC03(ctx *Ctx) error {
 						args, _ := call["args"].(map[string]interface{})
 						if rqo, ok := args["request"].(map[string]interface{}); ok { // strict: request object, fields are Go names
 							for k, v := range rqo {
-								gotBind[strings.ToLower(k[:1])+k[1:]] = fmt.Sprint(v)
+								gotBind[strings.ToLower(k)] = fmt.Sprint(v)
 							}
 						} else {
 							for k, v := range args {
-								gotBind[k] = fmt.Sprint(v)
+								gotBind[strings.ToLower(k)] = fmt.Sprint(v)
 							}
 						}
 					}
